@@ -149,10 +149,18 @@ class Conn:
         self.close_calls += 1
         try:
             self._api("close")
-        finally:
-            self.closed = True
-            if self.wraps is not None:
-                self.world.conns[self.wraps].closed = True
+        except BaseException:
+            # an exception out of close(): by default the descriptor is gone anyway; with `close_fault_leaves_open` the exception struck
+            # before the descriptor was released (an interruption on the way into close()), so the socket is still usable
+            if not getattr(self.world, "close_fault_leaves_open", False):
+                self._mark_closed()
+            raise
+        self._mark_closed()
+
+    def _mark_closed(self):
+        self.closed = True
+        if self.wraps is not None:
+            self.world.conns[self.wraps].closed = True
 
     def fileno(self):
         return 1000 + self.id
